@@ -1,17 +1,15 @@
-//! `BinaryHeap<T>` as an unsorted buffer; `pop` removes a maximum found by a
-//! linear scan. Capacity `verif::vcap()` live elements. Which of several
-//! *equal* maxima is returned is unspecified in `std` as well.
+//! `BinaryHeap<T>` as a typed inline array of `CAP` optional slots (unsorted);
+//! `pop` removes a maximum found by a linear scan. At most `CAP` live
+//! elements. Which of several *equal* maxima is returned is unspecified in
+//! `std` as well. No heap object, no union.
 
 use {
-    crate::rawbuf::RawBuf,
-    ::std::{
-        fmt,
-        ptr,
-    },
+    super::vec_deque::CAP,
+    ::std::fmt,
 };
 
 pub struct BinaryHeap<T> {
-    buf: RawBuf<T>,
+    items: [Option<T>; CAP],
     len: usize,
 }
 
@@ -26,21 +24,40 @@ impl<T> BinaryHeap<T> {
         self.len == 0
     }
 
-    #[must_use]
-    pub fn as_slice(&self) -> &[T] {
-        unsafe { ::std::slice::from_raw_parts(self.buf.ptr, self.len) }
-    }
-
-    pub fn iter(&self) -> ::std::slice::Iter<'_, T> {
-        self.as_slice().iter()
+    pub fn iter(&self) -> Iter<'_, T> {
+        Iter { h: self, i: 0 }
     }
 
     pub fn clear(&mut self) {
-        while self.len > 0 {
-            self.len -= 1;
+        let mut i = 0;
 
-            unsafe { ptr::drop_in_place(self.buf.ptr.add(self.len)) };
+        while i < CAP {
+            self.items[i] = None;
+            i += 1;
         }
+
+        self.len = 0;
+    }
+}
+
+pub struct Iter<'a, T> {
+    h: &'a BinaryHeap<T>,
+    i: usize,
+}
+
+impl<'a, T> Iterator for Iter<'a, T> {
+    type Item = &'a T;
+
+    fn next(&mut self) -> Option<&'a T> {
+        if self.i >= self.h.len {
+            return None;
+        }
+
+        let r = self.h.items[self.i].as_ref();
+
+        self.i += 1;
+
+        r
     }
 }
 
@@ -48,7 +65,7 @@ impl<T: Ord> BinaryHeap<T> {
     #[must_use]
     pub const fn new() -> Self {
         Self {
-            buf: RawBuf::empty(),
+            items: [const { None }; CAP],
             len: 0,
         }
     }
@@ -59,16 +76,11 @@ impl<T: Ord> BinaryHeap<T> {
     }
 
     pub fn push(&mut self, item: T) {
-        if self.buf.cap == 0 {
-            self.buf = RawBuf::with_cap(crate::verif::vcap());
+        if self.len >= CAP || self.len >= crate::verif::vcap() {
+            crate::verif_capacity!("VERIF-CAPACITY: BinaryHeap: more live elements than the model capacity");
         }
 
-        if self.len >= self.buf.cap {
-            crate::verif_capacity!("BinaryHeap: more live elements than VCAP");
-        }
-
-        unsafe { ptr::write(self.buf.ptr.add(self.len), item) };
-
+        self.items[self.len] = Some(item);
         self.len += 1;
     }
 
@@ -77,10 +89,9 @@ impl<T: Ord> BinaryHeap<T> {
         let mut i = 1;
 
         while i < self.len {
-            unsafe {
-                if *self.buf.ptr.add(i) > *self.buf.ptr.add(best) {
-                    best = i;
-                }
+            // slots below `len` are always `Some`
+            if self.items[i] > self.items[best] {
+                best = i;
             }
 
             i += 1;
@@ -95,21 +106,15 @@ impl<T: Ord> BinaryHeap<T> {
         }
 
         let best = self.argmax();
+        let item = self.items[best].take();
 
-        unsafe {
-            let item = ptr::read(self.buf.ptr.add(best));
+        self.len -= 1;
 
-            self.len -= 1;
-
-            if best != self.len {
-                ptr::write(
-                    self.buf.ptr.add(best),
-                    ptr::read(self.buf.ptr.add(self.len)),
-                );
-            }
-
-            Some(item)
+        if best != self.len {
+            self.items[best] = self.items[self.len].take();
         }
+
+        item
     }
 
     #[must_use]
@@ -117,18 +122,8 @@ impl<T: Ord> BinaryHeap<T> {
         if self.len == 0 {
             None
         } else {
-            Some(unsafe { &*self.buf.ptr.add(self.argmax()) })
+            self.items[self.argmax()].as_ref()
         }
-    }
-}
-
-impl<T> Drop for BinaryHeap<T> {
-    fn drop(&mut self) {
-        if ::std::mem::needs_drop::<T>() {
-            self.clear();
-        }
-
-        self.buf.free();
     }
 }
 
@@ -141,9 +136,13 @@ impl<T: Ord> Default for BinaryHeap<T> {
 impl<T: Ord + Clone> Clone for BinaryHeap<T> {
     fn clone(&self) -> Self {
         let mut out = Self::new();
+        let mut i = 0;
 
-        for x in self.iter() {
-            out.push(x.clone());
+        out.len = self.len;
+
+        while i < CAP {
+            out.items[i] = self.items[i].clone();
+            i += 1;
         }
 
         out
